@@ -22,6 +22,7 @@ type scanner struct {
 	rev, tmp []uint64
 	// panicked holds the message of the first conversion call that panicked
 	panicked string
+	calls    int
 }
 
 // scanPartial counts the conversions whose operands ended in a partly filled frame.
@@ -111,9 +112,21 @@ func (s *scanner) conv(in []uint64) []uint64 {
 		}
 		atomic.AddInt64(&scanPartial, 1)
 	}
+	s.calls++
+	if s.calls%2 == 0 && n%s.ch == 0 {
+		// every other call: the whole destination buffer (longer than the source)
+		dst = s.dst
+	}
 	s.cv.S.Fill(src, in)
+	srcLen, dstLen := src.Len(), dst.Len()
 	if p, msg := core.Guard(func() { s.cv.Call(src, dst) }); p && s.panicked == "" {
 		s.panicked = msg
+	}
+	if (src.Len() != srcLen || dst.Len() != dstLen) && s.panicked == "" {
+		s.panicked = fmt.Sprintf("(no panic, but) the conversion changed the length of its operands: source %d -> %d samples, destination %d -> %d samples", srcLen, src.Len(), dstLen, dst.Len())
+	}
+	if s.panicked != "" {
+		return s.out[:n] // the caller reports it; the operands may be in no state to be read
 	}
 	s.cv.D.Drain(dst, s.out[:n])
 	return s.out[:n]
@@ -245,6 +258,21 @@ func preludeCheck(c *core.Ctx, sc *scanner, name, caseID string, zero, lo, hi ui
 			return
 		} else if !ok {
 			first[v] = out[i]
+		}
+	}
+	// the special samples once more in tiny blocks - alone, and among nothing but
+	// zero-amplitude samples: what a sample converts to must not depend on what
+	// else is (or is not) in the block
+	for _, sp := range []uint64{lo, hi, zero} {
+		for bi, block := range [][]uint64{{sp}, {sp, zero, zero}, {zero, sp}, {zero, zero, sp, zero}} {
+			pos := []int{0, 0, 1, 2}[bi]
+			res := sc.conv(block)
+			if want, ok := first[sp]; ok && res[pos] != want {
+				c.Violate(name+"|block-dependence", caseID, fmt.Sprintf("the sample with carrier %#x converts to %#x in the block %v and to %#x in the mixed block %v", sp, res[pos], block, want, in),
+					map[string]any{"fn": name, "block": block, "mixed_block": in})
+				return
+			}
+			c.Obs("special_samples_converted_in_tiny_blocks", 1)
 		}
 	}
 	if !zeroOK(out[0]) {
